@@ -765,7 +765,7 @@ def model_verdicts(ctx, info):
     return res
 
 
-def run(ctx):
+def _run(ctx):
     quick = ctx.tier == 'quick'
     seed = ctx.seed
     # ---------------- 1. static: regenerate the effect programs, re-check the theorems
@@ -939,3 +939,17 @@ def run(ctx):
     ctx.assumptions += ['callables received as arguments (f of bisect/chandrupatla) and local closures do not write to their arguments',
                         'parameters with scalar defaults / listed in effects.IMMUT_PARAMS are immutable scalars or strings',
                         'no module-level state holds aliases of caller inputs'] + info['__assumptions__'][:6]
+
+
+def run(ctx):
+    """the check proper, then the oracles for caller-owned CONSTRUCTOR arguments and for frames with non-string labels (always)"""
+    from .. import extra_oracles2
+    try:
+        _run(ctx)
+    finally:
+        try:
+            extra_oracles2.ctor_args(ctx)
+            extra_oracles2.viz_labels(ctx)
+        except Exception as ex:       # the oracle itself must never hide the result of the check proper
+            ctx.obligation('oracle:extra:raised', False, 'correspondence', repr(ex))
+            ctx.violation('oracle:extra:raised:' + type(ex).__name__, 'constructor-argument / label oracle raised ' + repr(ex), {'repro': '# see tools/vf/extra_oracles2.py'})
